@@ -350,6 +350,19 @@ def main(run):
                     dict(desc, DirectModel=np.asarray(A).tolist(), Iq=np.asarray(B).tolist(), sasview=np.asarray(C).tolist(), bumps=np.asarray(D).tolist())))
             elif np.all(np.isfinite(A)):
                 distinct.add((name, rep))
+            # mono=True (the rarely passed switch of call_kernel/get_mesh): the same as leaving every dispersity key out
+            if not dim2 and worst <= TOL:
+                try:
+                    plain = {k: v for k, v in pars.items() if "_pd" not in k}
+                    Em = call_kernel(kern, dict(pars), cutoff=0.0, mono=True)
+                    Es = calc1(**plain)
+                    evals += 2
+                    stats["mono_switch"] = stats.get("mono_switch", 0) + 1
+                    if rel(Em, Es) > TOL:
+                        run.add(Finding("C10:agree-mono:%s" % name, "%s: call_kernel(mono=True) with dispersity keys present gives %s, the calculator without those keys gives %s" % (
+                            name, np.asarray(Em).tolist()[:3], np.asarray(Es).tolist()[:3]), dict(desc, plain=plain)))
+                except Exception as exc:  # noqa
+                    run.add(Finding("C10:agree:error:%s" % name, "%s: call_kernel(mono=True) raised %r" % (name, exc), desc))
             # the same objects edited in place (a GUI or fit changes values between evaluations and keeps the
             # dispersity settings): new values of every size parameter, same widths / counts / types
             if not dim2 and worst <= TOL:
